@@ -12,6 +12,7 @@ def run(res, tier, replay=None):
     bufbudget.run(prog, res, "C19", "C19.c", {"json.c"}, floor=1)
     c04c.run_bounds(prog, res, "C19", "C19.d", {"json.c"}, floor=0)
     c04c.run_fromdouble(prog, res, "C19", "C19.e", {"json.c"}, floor=0)
+    c19.run_f(prog, res)
     c04c.bounds_witnesses(prog, res)
     res.assumptions = common.ASSUMPTIONS
     res.explanation = (
@@ -20,12 +21,13 @@ def run(res, tier, replay=None):
         "offset to an accessor helper, the helper's access width (memcpy size / indexed element size, summarised through the "
         "static helpers) and the branch conditions dominating the call must imply 0 <= off and off + width <= length of the "
         "same object (uniform vectors: 0 <= i < uvector-length of the same vector); (b) the recursion cycles of lib/chibi/json.c "
-        "go through a verified depth bound; (c) growable string buffers of json.c: the index advances by at most K between two evaluations of the growth guard `i + K >= size`. (d) the JSON number reader compares its double against SEXP_MAX_FIXNUM with the operator that stays correct under rounding of that constant; (e) no fixnum is boxed from a double accumulator unless a comparison holding on every path bounds its magnitude by 2^53 (a JSON integer must not lose its low bits on the way in). Not decided: encode/decode inverses, base64/QP/URI/CSV (Scheme), mini-floats.")
+        "go through a verified depth bound; (c) growable string buffers of json.c: the index advances by at most K between two evaluations of the growth guard `i + K >= size`. (d) the JSON number reader compares its double against SEXP_MAX_FIXNUM with the operator that stays correct under rounding of that constant; (e) no fixnum is boxed from a double accumulator unless a comparison holding on every path bounds its magnitude by 2^53 (a JSON integer must not lose its low bits on the way in). (f) JSON string escapes: every escape letter json_write_string emits is decoded by json_read_string to the character it stood for, and the quote and the backslash are escaped. Not decided: encode/decode inverses, base64/QP/URI/CSV (Scheme), mini-floats.")
     if tier == "thorough":
         common.thorough_mutations(res, "C19", {
             "C19.a": lambda p, r: c19.run_a(p, r, floor=0),
             "C19.c": lambda p, r: bufbudget.run(p, r, "C19", "C19.c", {"json.c"}, floor=0),
             "C19.b": lambda p, r: recursion.run(p, r, "C19", "C19.b", roots=None, floor=0, only_units={"json.c"}),
             "C19.d": lambda p, r: c04c.run_bounds(p, r, "C19", "C19.d", {"json.c"}, floor=0),
+            "C19.f": lambda p, r: c19.run_f(p, r, floor=0),
             "C19.e": lambda p, r: c04c.run_fromdouble(p, r, "C19", "C19.e", {"json.c"}, floor=0),
         })
